@@ -55,8 +55,8 @@ theorem factorizeLabels_none (keys : List Key) (sort : Bool) :
 theorem runUnknown_eq_reduce_factorized (R : Resolved) (s : Shape) (c : Call) (chunks : List Nat) (keys : List Key)
     (vals : List Val)
     (hR : c.R = R) (heng : c.eng = .npg) (hshape : R.shape? = some s)
-    (hlen : keys.length = vals.length) (hpres : presentKeys keys ≠ [])
-    (H_minmax : HMinMax R s)
+    (hlen : keys.length = vals.length)
+    (H_minmax : HMinMax R s) (H_allmissing : HAllMissing R keys)
     (hchunks : chunks ≠ []) (hsum : chunks.sum = keys.length) :
     runUnknown c chunks keys vals
       = (match Spec.reduce s.kernel R.minCount R.userFill (factorizeLabels keys none c.sort).2 vals
@@ -64,7 +64,7 @@ theorem runUnknown_eq_reduce_factorized (R : Resolved) (s : Shape) (c : Call) (c
           | some vs => .ok ((factorizeLabels keys none c.sort).1.map some, vs)
           | none => .error "ValueError") := by
   have hs := (R.shape?_eq_some_iff s).mp hshape
-  rw [runUnknown_eq_spec R s c chunks keys vals hR heng hshape hlen hpres H_minmax hchunks hsum,
+  rw [runUnknown_eq_spec R s c chunks keys vals hR heng hshape hlen H_minmax H_allmissing hchunks hsum,
     factorizeLabels_none]
   simp only
   have hm : (foundOf c.sort keys).mapM (fun r => specSlot R s.kernel (membersK (some r) keys vals))
